@@ -16,7 +16,8 @@ EXPECT_ENTERED = ['Client._flush_pipeline', 'Client.mailfrom', 'Client.rcptto',
                   'Reply.recv', 'Extensions.parse_string']
 BOUNDS = {
     'quick': 'client programs: (A) banner EHLO MAIL RCPTxn DATA content QUIT, '
-             '(B) ... RCPT RSET MAIL RCPT DATA empty-content QUIT, (C) custom '
+             '(B) ... RCPT RSET MAIL RCPT DATA empty-content QUIT, (D) ... RCPT '
+             'DATA(refused) MAIL RCPT DATA content QUIT without RSET, (C) custom '
              'command + NOOP + MAIL + RSET + QUIT; n<=2 recipients (LMTP also '
              'the same address twice); SMTP and '
              'LMTP; PIPELINING advertised or not; any ONE reply of the script '
@@ -46,9 +47,9 @@ def cells(tier):
     q = tier == 'quick'
     for lmtp in (0, 1):
         for pipe in (0, 1):
-            for prog in ('A', 'B', 'C'):
+            for prog in ('A', 'B', 'C', 'D'):
                 for n in ((1, 2) if q else (1, 2, 3)):
-                    if prog == 'C' and n > 1:
+                    if prog in ('C', 'D') and n > 1:
                         continue
                     out.append({'prog': prog, 'lmtp': lmtp, 'pipe': pipe,
                                 'n': n, 'c': 1, 'chars': 1 if q else 2,
@@ -120,10 +121,12 @@ class ScriptedServer(object):
                 self.mode = 'data'
             elif verb == b'RCPT' and api.decide(code[0:1] == '2'):
                 self.accepted += 1
-            elif verb in (b'RSET', b'MAIL', b'LHLO', b'EHLO'):
-                if verb != b'MAIL' or True:
-                    if verb != b'MAIL':
-                        self.accepted = 0
+            elif verb in (b'RSET', b'LHLO', b'EHLO'):
+                self.accepted = 0
+            elif verb == b'MAIL' and api.decide(code[0:1] == '2'):
+                # an accepted MAIL starts a new transaction with an empty
+                # forward-path buffer (RFC 5321 4.1.1.2)
+                self.accepted = 0
 
     send = sendall
 
@@ -166,6 +169,7 @@ def run(cell):
         if lo >= 12:
             break
     DEFAULT = {'banner': '220', 'DATA': '354', 'QUIT': '221'}
+    seen_data = []
 
     def make_reply(i, kind):
         if i in sym_at:
@@ -177,6 +181,9 @@ def run(cell):
                      for j in range(nlines)]
         else:
             code = DEFAULT.get(kind, '250')
+            if cell['prog'] == 'D' and kind == 'DATA' and not seen_data:
+                seen_data.append(1)
+                code = '554'
             lines = ['ok %d' % i]
         if kind in ('EHLO', 'LHLO'):
             lines.append('SIZE 1000')
@@ -220,7 +227,20 @@ def run(cell):
                 got.append(('RSET', client.rset(), ''))
                 got.append(('MAIL', client.mailfrom('s2@z'), ''))
                 got.append(('RCPT', client.rcptto(rcpts[0]), ''))
+            if cell['prog'] == 'D':
+                # DATA is refused; the client starts over without RSET
+                d1 = client.data()
+                # (a symbolic first DATA reply of 354 is program A's case)
+                api.assume(d1.code != '354')
+                got.append(('DATA', d1, ''))
+                m2 = client.mailfrom('s2@z')
+                got.append(('MAIL', m2, ''))
+                got.append(('RCPT', client.rcptto('other@x'), ''))
             d = client.data()
+            if cell['prog'] == 'D':
+                # a client that goes on after a refused second MAIL is not
+                # a case the property speaks about
+                api.assume(m2.code[0:1] == '2')
             got.append(('DATA', d, ''))
             if api.decide(d.code == '354'):
                 if cell['prog'] == 'B':
@@ -280,6 +300,8 @@ def run(cell):
         last_mail = max(i for i, (k, c) in enumerate(rc) if k == 'MAIL')
         rcpt_codes = [c for k, c in rc[last_mail:] if k == 'RCPT']
         sent = rcpts[:len(rcpt_codes)]
+        if cell['prog'] == 'D':
+            sent = ['other@x']
         want = [a for a, c in zip(sent, rcpt_codes)
                 if api.decide(c[0:1] == '2')]
         api.prove([a for a, _ in lm_pairs] == want,
